@@ -122,7 +122,19 @@ def myokit_to_gotran(model: myokit.Model, protocol=None) -> ODE:
 
     model.create_unique_names()
 
-    all_subs, component_subs = extract_nested_variables(model)
+    # Every reference in an expression is written with the unique name of the
+    # variable it refers to. (Renaming by local name afterwards cannot work: the same
+    # local name may be nested under several variables and refer to different ones.)
+    def unique_name(lhs: myokit.LhsExpression) -> str:
+        name = lhs.var().uname()
+        if name in reserved_names:
+            name = f"{name}_"
+        if isinstance(lhs, myokit.Derivative):
+            return f"d{name}_dt"
+        return name
+
+    writer = myokit.formats.sympy.SymPyExpressionWriter()
+    writer.set_lhs_function(unique_name)
 
     initial_values = model.initial_values()
     components = []
@@ -150,10 +162,7 @@ def myokit_to_gotran(model: myokit.Model, protocol=None) -> ODE:
                 )
                 states.append(state)
                 with sp.core.parameters.evaluate(False):
-                    expr = myokit.formats.sympy.write(var.eq().rhs)
-                    expr = expr.xreplace({v.name(): v.uname() for v in var.variables(deep=True)})
-                    expr = expr.xreplace(component_subs.get(component.name(), {}))
-                    expr = expr.xreplace(all_subs)
+                    expr = writer.ex(var.eq().rhs)
 
                 state_der = atoms.StateDerivative(
                     name=f"d{name}_dt",
@@ -168,7 +177,7 @@ def myokit_to_gotran(model: myokit.Model, protocol=None) -> ODE:
 
             else:
                 with sp.core.parameters.evaluate(False):
-                    expr = myokit.formats.sympy.write(var.rhs())
+                    expr = writer.ex(var.rhs())
                 if expr.is_Number:
                     parameter = atoms.Parameter(
                         name=name,
@@ -180,13 +189,6 @@ def myokit_to_gotran(model: myokit.Model, protocol=None) -> ODE:
                     parameters.append(parameter)
 
                 else:
-                    with sp.core.parameters.evaluate(False):
-                        expr = expr.xreplace(
-                            {v.name(): v.uname() for v in var.variables(deep=True)}
-                        )
-                        expr = expr.xreplace(component_subs.get(component.name(), {}))
-                        expr = expr.xreplace(all_subs)
-
                     intermediate = atoms.Intermediate(
                         name=name,
                         expr=expr,
